@@ -21,6 +21,14 @@ CLAIMED = {
    text="TLC model-checks the container state machine (spec/Container4.tla): alias soundness under the two exchange symmetries (with sign), owner soundness, NonTrivialElements = elements of ElementsMap, evaluability after bulk computation, on every state reachable in 3 (thorough 4) calls; every explored transition is replayed into a real TwoParticleGFContainer comparing outcome, maps, element identities, statuses and every evaluated value against a directly constructed TwoParticleGF; random histories on 2-4 mode models are validated by TLC (ContainerTrace.tla); the exchange symmetries are checked on direct objects.",
    note="TLC; harness projection by element address; clearTerms=false only; single rank",
    tech="TLA+ state machine + TLC; replay of every transition; trace validation of recorded histories"),
+ "C16": dict(cat="model_checking", ref="6 C16",
+   text="TLC explores every interleaving of master steps, worker steps and message deliveries of the dispatcher protocol (spec/Dispatcher.tla, one action per MPI call, R consecutive rounds) for small P, J, R and checks exactly-once, map truthfulness/completeness, drained channels, stack and Finish safety, and termination under weak fairness; real runs of mpi_skel::run under mpiexec with seeded delays at every MPI call are recorded by PMPI interposition and TLC finds, for every run, an interleaving of the per-rank logs that is a behaviour of the specification (DispatcherTrace.tla), comparing the returned maps on all ranks.",
+   note="TLC; PMPI logger; eager sends of one int, per-pair FIFO, effective MPI_Cancel; real schedules are sampled",
+   tech="TLA+ protocol specification + TLC (safety and liveness); trace validation of per-rank PMPI logs with per-rank cursors"),
+ "C06": dict(cat="model_checking", ref="6 C06",
+   text="TLC checks, on the per-rank programs of collectives of Hamiltonian::prepare/compute, TwoParticleGF::compute and computeAll split/nosplit (spec/MpiProgram.tla), that no collective is mismatched, no rank is left waiting, every rank ends with all eigen-data, the full tables reach the ranks the interface returns them to and kept terms are evaluable everywhere, for all dispatch outcomes, P<=3 (thorough 5) and component layouts incl. vanishing components, fewer components than ranks and non-dividing counts; real multi-rank/multi-thread runs are validated against the specification (MpiProgramTrace.tla) and everything each rank holds is compared with the single-rank single-thread run; time-outs are non-termination.",
+   note="TLC; PMPI logger and lexer; rendezvous matching of collectives; tolerance 1e-11 on sums, bitwise on eigen-data; real schedules sampled",
+   tech="TLA+ specification of per-rank collective programs + TLC; trace validation of PMPI logs; per-rank data comparison against the 1-rank run"),
 }
 NOT_YET = "check not built yet in this round (planned in DESIGN.md section 6); not claimed until it runs"
 
